@@ -79,7 +79,8 @@ class FISTA(BaseSolver):
                 else:
                     grad = construct_grad(X, y, z, X @ z, datafit, all_features)
 
-            step = 1 / lipschitz
+            # X == 0 has a zero Lipschitz constant (and a zero gradient)
+            step = 1 / lipschitz if lipschitz != 0 else 1000.
             z -= step * grad
             if hasattr(penalty, "prox_vec"):
                 w = penalty.prox_vec(z, step)
@@ -91,7 +92,7 @@ class FISTA(BaseSolver):
             if self.opt_strategy == "subdiff":
                 opt = penalty.subdiff_distance(w, grad, all_features)
             elif self.opt_strategy == "fixpoint":
-                opt = np.abs(w - penalty.prox_vec(w - grad / lipschitz, 1 / lipschitz))
+                opt = np.abs(w - penalty.prox_vec(w - step * grad, step))
             else:
                 raise ValueError(
                     "Unknown error optimality strategy. Expected "
